@@ -183,7 +183,10 @@ def check_property(pid, tier="quick", extra_evidence=None, quiet=False):
     for rid in rule_ids:
         mine = [o for o in obs if o.rule == rid]
         bad = [o for o in mine if not o.ok]
-        status = "ok " if not bad and not any(p[0] == rid for p in problems) else "BAD"
+        unlisted = [o for o in bad if (pid, o.full_key()) not in known]
+        status = "ok " if not unlisted and not any(p[0] == rid for p in problems) else "BAD"
+        if bad and not unlisted and status == "ok ":
+            status = "ok*"  # only listed known findings
         lines.append(f"{status} {pid}/{rid} {len(mine)} obligation(s) - {RULES[rid].title}")
     seen_v = set()
     for o in obs:
